@@ -69,6 +69,7 @@ ExperimentOps(T) ==
        \cup {[op |-> "RemoveLink", name |-> T.el[l].name] : l \in Links(T)}
 
        \cup {[op |-> "Rename", p |-> p, new |-> n] : p \in Nodes(T) \cup TopSvcs(T), n \in {"n2", "r9"}}
+       \cup {[op |-> "Rename", p |-> p, new |-> "data"] : p \in NodeSideIfs(T)}
        \cup {[op |-> "SetProp", p |-> p, kind |-> "rp", pname |-> "Capacities", val |-> [core |-> "i:2"]] : p \in Nodes(T)}
        \cup {[op |-> "SetProp", p |-> p, kind |-> "sp", pname |-> "Site", val |-> "S2"] : p \in Nodes(T) \cup TopSvcs(T)}
        \cup {[op |-> "UnsetProp", p |-> p, kind |-> "rp", pname |-> "Capacities"] : p \in Nodes(T)}
